@@ -9,8 +9,9 @@ EXTENDS ParBnB, DDContract, DominanceStore, Json, IOUtils
 Rec == ndJsonDeserialize(IOEnv.TRACE)
 VARIABLES l, I, HT, cfg, run, role, level, P, wk, fired, primalMax, store, devs,
           ever,      \* <<depth, q>> -> largest value with which that sub-problem was ever put on the fringe in this run
-          pendW      \* thresholds written since the last quiescent point (C09 unsound-threshold)
-vars == <<l, I, HT, cfg, run, role, level, P, wk, fired, primalMax, store, devs, ever, pendW>>
+          pendW,     \* thresholds written since the last quiescent point (C09 unsound-threshold)
+          held       \* the warm-start solution the solver must hold (C14: replaced only by a strictly greater value)
+vars == <<l, I, HT, cfg, run, role, level, P, wk, fired, primalMax, store, devs, ever, pendW, held>>
 None == <<>>
 MaxW == 17
 Add(d, tags) == IF Cardinality(d) < 60 THEN d \cup {<<t, l, run, "-">> : t \in tags} ELSE d
@@ -21,7 +22,7 @@ W0 == [node |-> None, sec |-> "-", bev |-> NegInf, phase |-> "idle", cand |-> No
 EmptyP == [fringe |-> EmptyBag, table |-> CEmpty, ongoing |-> 0, explored |-> 0, bestLb |-> NegInf, hasSol |-> FALSE, bestUb |-> PosInf, abort |-> FALSE,
            open |-> <<>>, ongoingBy |-> <<>>, first |-> 0, ubVec |-> <<>>]
 Init == /\ l = 1 /\ I = None /\ HT = None /\ cfg = None /\ run = 0 /\ role = "-" /\ level = "full" /\ P = EmptyP
-        /\ wk = [w \in 0..MaxW |-> W0] /\ fired = FALSE /\ primalMax = NegInf /\ store = <<>> /\ devs = {} /\ ever = <<>> /\ pendW = {}
+        /\ wk = [w \in 0..MaxW |-> W0] /\ fired = FALSE /\ primalMax = NegInf /\ store = <<>> /\ devs = {} /\ ever = <<>> /\ pendW = {} /\ held = None
 Ev(e) == l <= Len(Rec) /\ Rec[l].ev = e /\ l' = l + 1
 Me == Rec[l].w
 
@@ -31,11 +32,11 @@ TReset ==
      /\ I' = e.inst /\ HT' = (IF e.inst = I THEN HT ELSE HTable(e.inst))
      /\ cfg' = e.cfg /\ run' = e.run /\ role' = e.role /\ level' = e.level
      /\ P' = [EmptyP EXCEPT !.open = [d \in 0..e.inst.n |-> 0], !.ongoingBy = [d \in 0..e.inst.n |-> 0], !.ubVec = [w \in 1..e.cfg.nspawn |-> Idle]]
-     /\ wk' = [w \in 0..MaxW |-> W0] /\ fired' = FALSE /\ primalMax' = NegInf /\ store' = <<>> /\ ever' = <<>> /\ pendW' = {}
+     /\ wk' = [w \in 0..MaxW |-> W0] /\ fired' = FALSE /\ primalMax' = NegInf /\ store' = <<>> /\ ever' = <<>> /\ pendW' = {} /\ held' = None
      /\ devs' = (IF e.inst = I \/ WellFormed(I', HT') THEN devs ELSE Add(devs, {"HARNESS ill-formed-instance"}))
-Same2 == UNCHANGED <<I, HT, cfg, run, role, level, store>>
+Same2 == UNCHANGED <<I, HT, cfg, run, role, level, store, held>>
 Same == Same2 /\ UNCHANGED <<ever, pendW>>
-SameBut == UNCHANGED <<I, HT, cfg, run, role, level, ever, pendW>>
+SameBut == UNCHANGED <<I, HT, cfg, run, role, level, ever, pendW, held>>
 \* ---- C09, threshold soundness (see TraceSeq): a recorded threshold (d, q) -> theta is sound iff every completion of q from theta (theta - 1
 \* when not marked explored) is worth no more than the incumbent or runs through a sub-problem that was enqueued with at least the value the
 \* completion reaches it with.  Thresholds of one worker may rest on thresholds of another one whose cut-set is not enqueued yet: they are
@@ -50,8 +51,11 @@ Useless(d, q, a, lb) ==
 ThresholdTags(lb) == Tag(Monitored /\ \E w \in pendW : ~Useless(w.d, w.q, IF w.e THEN w.v ELSE w.v - 1, lb), "C09 unsound-threshold")
 
 TPrimal == /\ Ev("set_primal") /\ P' = PPrimal(P, Rec[l].value) /\ primalMax' = Max2(primalMax, Rec[l].value)
-           /\ devs' = Add(devs, Tag(Rec[l].lb_after # P'.bestLb, "C14 set-primal-value"))
-           /\ Same /\ UNCHANGED <<wk, fired>>
+           /\ held' = (IF Rec[l].value > P.bestLb THEN Rec[l].sol.decs ELSE held)
+           /\ devs' = Add(devs, Tag(Rec[l].lb_after # P'.bestLb, "C14 set-primal-value")
+                                \* replaced only when strictly greater: on an equal (or smaller) value the earlier solution stays
+                                \cup Tag(Rec[l].sol_after.decs # held', "C14 set-primal-solution"))
+           /\ UNCHANGED <<I, HT, cfg, run, role, level, store, ever, pendW, wk, fired>>
 TDQuery ==
   /\ Ev("dquery")
   /\ LET e == Rec[l]  c == DomCoords(I, e.st)  k == DomKey(I, e.st)
